@@ -3,11 +3,17 @@ package main
 import (
 	"bytes"
 	"context"
+	"crypto/sha256"
+	"encoding/json"
+	"errors"
 	"fmt"
 	"io"
 	"mime/multipart"
 	"net/http"
 	"net/http/httptest"
+	"net/url"
+	"os"
+	"path/filepath"
 	"reflect"
 	"regexp"
 	"sort"
@@ -28,8 +34,16 @@ import (
 // runner records outcome "race".  Logged otherwise: per operation, the verdicts when run alone
 // and the set of verdicts observed under concurrency.
 
+// An operation is a pair: e = entry point (or the name of a flat operation), f = the schema feature / media type it meets
+// in the shared document ("-" for flat operations).  See spec/SharedState.tla.
+type c15Op struct {
+	E string `json:"e"`
+	F string `json:"f"`
+}
+
 type c15Case struct {
-	Ops []string `json:"ops"`
+	Ops  []c15Op `json:"ops"`
+	Init string  `json:"init"`
 }
 
 type c15World struct {
@@ -39,11 +53,95 @@ type c15World struct {
 	mux    routers.Router
 	legacy routers.Router
 	typ    reflect.Type
+	// a second document, with server templates, and its routers
+	docS    *openapi3.T
+	muxS    routers.Router
+	legacyS routers.Router
+	// one middleware instance serving every request of the "middleware" entry
+	mw http.Handler
+	// types for gen_nested (a new outer type around a type every case shares)
+	typNested reflect.Type
+	idx       int
+}
+
+// ---------------------------------------------------------------- the product catalogue: schema features
+// Each feature: a component schema and three values (conforming, violating, conforming).
+type c15Feature struct {
+	name   string
+	schema string    // may contain %d (case-fresh pattern text)
+	vals   [3]string // JSON texts (may contain %d)
+	scalar bool      // usable as a styled query / header value
+}
+
+var c15Features = []c15Feature{
+	{"not", `{"type":"string","not":{"type":"string","enum":["bad"]}}`, [3]string{`"good"`, `"bad"`, `"fine"`}, true},
+	{"anyof", `{"type":"string","anyOf":[{"type":"string","enum":["aa"]},{"type":"string","minLength":5}]}`, [3]string{`"aa"`, `"bbb"`, `"ccccc"`}, true},
+	{"oneof", `{"type":"string","oneOf":[{"type":"string","maxLength":3},{"type":"string","minLength":3}]}`, [3]string{`"ab"`, `"abc"`, `"abcd"`}, true},
+	{"allof", `{"type":"string","allOf":[{"type":"string","minLength":2},{"type":"string","maxLength":4}]}`, [3]string{`"abc"`, `"a"`, `"abcd"`}, true},
+	{"pattern", `{"type":"string","pattern":"^c%dq[a-z]*$"}`, [3]string{`"c%dqab"`, `"zz"`, `"c%dq"`}, true},
+	{"format_date", `{"type":"string","format":"date"}`, [3]string{`"2020-01-31"`, `"2020-13-01"`, `"1999-12-01"`}, true},
+	{"format_custom", `{"type":"string","format":"x-verif-even"}`, [3]string{`"ab"`, `"abc"`, `"abcd"`}, true},
+	{"format_int32", `{"type":"integer","format":"int32"}`, [3]string{`5`, `3000000000`, `-7`}, true},
+	{"number", `{"type":"number","format":"float","maximum":10}`, [3]string{`1.5`, `11`, `10`}, true},
+	{"enum", `{"type":"string","enum":["a","b"]}`, [3]string{`"a"`, `"c"`, `"b"`}, true},
+	{"minmax", `{"type":"integer","minimum":1,"maximum":9,"multipleOf":2}`, [3]string{`2`, `3`, `8`}, true},
+	{"unique", `{"type":"array","uniqueItems":true,"items":{"type":"string"}}`, [3]string{`["a","b"]`, `["a","a"]`, `["c"]`}, true},
+	{"object", `{"type":"object","required":["k"],"additionalProperties":false,"properties":{"k":{"type":"string"},"n":{"type":"integer"}}}`,
+		[3]string{`{"k":"x"}`, `{"k":"x","z":1}`, `{"k":"y","n":2}`}, false},
+	{"discriminator", `{"oneOf":[{"$ref":"#/components/schemas/Cat"},{"$ref":"#/components/schemas/Dog"}],"discriminator":{"propertyName":"kind","mapping":{"cat":"#/components/schemas/Cat","dog":"#/components/schemas/Dog"}}}`,
+		[3]string{`{"kind":"cat","lives":9}`, `{"kind":"dog","lives":9}`, `{"kind":"dog","bark":true}`}, false},
+}
+
+func c15FeatureByName(n string) *c15Feature {
+	for i := range c15Features {
+		if c15Features[i].name == n {
+			return &c15Features[i]
+		}
+	}
+	panic("harness: c15 feature " + n)
+}
+
+// media types of the catalogue (SharedState!MtPairs): what is sent for each abstract name
+const c15VendorReg = "application/vnd.verif.reg+json" // registered by this process at init time, as the documentation asks
+
+func c15VendorNew(idx int) string { return fmt.Sprintf("application/vnd.verif.c%d+json", idx) }
+
+func c15Sent(name string, idx, g int) string {
+	switch name {
+	case "json":
+		return "application/json"
+	case "problem":
+		return "application/problem+json"
+	case "vendor_new":
+		return c15VendorNew(idx)
+	case "vendor_reg":
+		return c15VendorReg
+	case "yaml":
+		return "application/yaml"
+	case "plain":
+		return "text/plain"
+	case "octet":
+		return "application/octet-stream"
+	}
+	panic("harness: c15 media type " + name)
+}
+
+func init() {
+	// init-time configuration of the process (before any goroutine validates): a vendor media type decoded as JSON,
+	// a caller-defined string format
+	openapi3filter.RegisterBodyDecoder(c15VendorReg, openapi3filter.JSONBodyDecoder)
+	openapi3.DefineStringFormatValidator("x-verif-even", openapi3.NewCallbackValidator(func(v string) error {
+		if len(v)%2 != 0 {
+			return errors.New("odd length")
+		}
+		return nil
+	}))
 }
 
 func c15Doc(idx int) string {
+	paths, schemas := c15ProductDoc(idx)
 	return fmt.Sprintf(`{"openapi":"3.0.3","info":{"title":"t","version":"1"},
-"paths":{"/items/{id}":{
+"paths":{`+paths+`"/items/{id}":{
  "parameters":[{"name":"id","in":"path","required":true,"schema":{"type":"integer"}},
    {"name":"X-A","in":"header","schema":{"type":"string"}},{"name":"X-B","in":"header","schema":{"type":"string"}}],
  "delete":{"parameters":[{"name":"confirm","in":"query","required":true,"schema":{"type":"boolean"}}],"responses":{"204":{"description":"gone"}}},
@@ -64,7 +162,7 @@ func c15Doc(idx int) string {
  "/secure":{"post":{"security":[{"key":[]}],
          "requestBody":{"required":true,"content":{"application/json":{"schema":{"$ref":"#/components/schemas/Item"}}}},
          "responses":{"200":{"description":"ok"}}}}},
-"components":{"securitySchemes":{"key":{"type":"apiKey","in":"header","name":"X-Key"}},"schemas":{
+"components":{"securitySchemes":{"key":{"type":"apiKey","in":"header","name":"X-Key"}},"schemas":{`+schemas+`
  "MP":{"type":"object","properties":{"name":{"type":"string"}},"additionalProperties":{"properties":{"tag":{"type":"string"}}}},
  "FD":{"type":"object","required":["kind"],"properties":{"name":{"type":"string"},"kind":{"type":"string","default":"cat"}}},
  "Item":{"type":"object","required":["id"],"properties":{"id":{"type":"integer"},
@@ -73,7 +171,57 @@ func c15Doc(idx int) string {
    "w":{"type":"object","default":{},"properties":{"v":{"type":"string","default":"d"}}}}}}}}}}`, idx)
 }
 
-func c15NewWorld(idx int) *c15World {
+// c15ProductDoc: per feature F a component schema F_<f>, a wrapper W_<f> = {p: F}, and the paths
+//
+//	/f/<f>  get: query parameter p of F, 200 with a JSON body W;  post: JSON body W, 200 with a JSON body W
+//	/h/<f>  get: header parameter X-P of F, 200 with a response header X-P of F and no content
+//
+// and the media-type paths /mt/exact (every media type of the catalogue declared by name), /mt/appstar (application/*),
+// /mt/any (*/*), request body and 200 response alike.
+func c15ProductDoc(idx int) (string, string) {
+	var paths, schemas strings.Builder
+	for _, f := range c15Features {
+		sch := f.schema
+		if strings.Contains(sch, "%d") {
+			sch = fmt.Sprintf(sch, idx)
+		}
+		fmt.Fprintf(&schemas, `"F_%s":%s,"W_%s":{"type":"object","required":["p"],"properties":{"p":{"$ref":"#/components/schemas/F_%s"}}},`, f.name, sch, f.name, f.name)
+		body := fmt.Sprintf(`"content":{"application/json":{"schema":{"$ref":"#/components/schemas/W_%s"}}}`, f.name)
+		get := ""
+		if f.scalar {
+			explode := ""
+			if f.name == "unique" {
+				explode = `,"explode":false`
+			}
+			get = fmt.Sprintf(`"get":{"parameters":[{"name":"p","in":"query","schema":{"$ref":"#/components/schemas/F_%s"}%s}],"responses":{"200":{"description":"ok",%s}}},`, f.name, explode, body)
+			fmt.Fprintf(&paths, `"/h/%s":{"get":{"parameters":[{"name":"X-P","in":"header","schema":{"$ref":"#/components/schemas/F_%s"}}],
+  "responses":{"200":{"description":"ok","headers":{"X-P":{"schema":{"$ref":"#/components/schemas/F_%s"}}}}}}},`, f.name, f.name, f.name)
+		} else {
+			get = fmt.Sprintf(`"get":{"responses":{"200":{"description":"ok",%s}}},`, body)
+		}
+		fmt.Fprintf(&paths, `"/f/%s":{%s"post":{"requestBody":{"required":true,%s},"responses":{"200":{"description":"ok",%s}}}},`, f.name, get, body, body)
+	}
+	schemas.WriteString(`"Cat":{"type":"object","required":["kind"],"additionalProperties":false,"properties":{"kind":{"type":"string"},"lives":{"type":"integer"}}},
+ "Dog":{"type":"object","required":["kind"],"additionalProperties":false,"properties":{"kind":{"type":"string"},"bark":{"type":"boolean"}}},
+ "MtS":{"type":"object","required":["p"],"properties":{"p":{"type":"integer"}}},"MtT":{"type":"string","minLength":2},`)
+	S, T := `{"schema":{"$ref":"#/components/schemas/MtS"}}`, `{"schema":{"$ref":"#/components/schemas/MtT"}}`
+	exact := fmt.Sprintf(`"content":{"application/json":%s,"application/problem+json":%s,%q:%s,%q:%s,"application/yaml":%s,"text/plain":%s,"application/octet-stream":%s}`,
+		S, S, c15VendorNew(idx), S, c15VendorReg, S, S, T, T)
+	for name, content := range map[string]string{"exact": exact, "appstar": `"content":{"application/*":` + S + `}`, "any": `"content":{"*/*":` + S + `}`} {
+		fmt.Fprintf(&paths, `"/mt/%s":{"post":{"requestBody":{"required":true,%s},"responses":{"200":{"description":"ok",%s}}}},`, name, content, content)
+	}
+	return paths.String(), schemas.String()
+}
+
+// a second document: server templates with variables (both routers match them per request)
+const c15ServersDoc = `{"openapi":"3.0.3","info":{"title":"s","version":"1"},
+"servers":[{"url":"https://{tenant}.example.com/v{ver}","variables":{"tenant":{"default":"a"},"ver":{"default":"1","enum":["1","2"]}}},
+           {"url":"https://api.example.com/base"}],
+"paths":{"/things/{id}":{"parameters":[{"name":"id","in":"path","required":true,"schema":{"type":"integer"}}],
+                         "get":{"responses":{"200":{"description":"ok"}}},"post":{"responses":{"200":{"description":"ok"}}}},
+         "/things":{"get":{"responses":{"200":{"description":"ok"}}}}}}`
+
+func c15NewWorld(idx int, servers bool) *c15World {
 	d, err := openapi3.NewLoader().LoadFromData([]byte(c15Doc(idx)))
 	if err != nil {
 		panic("harness: c15 doc: " + err.Error())
@@ -81,13 +229,34 @@ func c15NewWorld(idx int) *c15World {
 	if err := d.Validate(context.Background()); err != nil {
 		panic("harness: c15 doc: " + err.Error())
 	}
-	w := &c15World{doc: d, opts: &openapi3filter.Options{}}
+	w := &c15World{doc: d, opts: &openapi3filter.Options{}, idx: idx}
 	if w.mux, err = gorillamux.NewRouter(d); err != nil {
 		panic(err)
 	}
 	if w.legacy, err = legacy.NewRouter(d); err != nil {
 		panic(err)
 	}
+	if servers { // (only the cases that route through server templates pay for the second document)
+		if w.docS, err = openapi3.NewLoader().LoadFromData([]byte(c15ServersDoc)); err != nil {
+			panic("harness: c15 servers doc: " + err.Error())
+		}
+		if err := w.docS.Validate(context.Background()); err != nil {
+			panic("harness: c15 servers doc: " + err.Error())
+		}
+		if w.muxS, err = gorillamux.NewRouter(w.docS); err != nil {
+			panic(err)
+		}
+		if w.legacyS, err = legacy.NewRouter(w.docS); err != nil {
+			panic(err)
+		}
+	}
+	// one middleware for all requests; the handler answers with the conforming body of the feature it is asked for
+	w.mw = openapi3filter.NewValidator(w.mux).Middleware(http.HandlerFunc(func(rw http.ResponseWriter, r *http.Request) {
+		f := c15FeatureByName(strings.TrimPrefix(r.URL.Path, "/f/"))
+		rw.Header().Set("Content-Type", "application/json")
+		rw.WriteHeader(200)
+		io.WriteString(rw, `{"p":`+c15Val(f, 0, idx)+`}`)
+	}))
 	// a struct type no earlier case has used, so that type-info generation is a first use
 	fields := []reflect.StructField{}
 	for i := 0; i < 40; i++ {
@@ -95,7 +264,198 @@ func c15NewWorld(idx int) *c15World {
 			Tag: reflect.StructTag(fmt.Sprintf(`json:"f%d"`, i))})
 	}
 	w.typ = reflect.StructOf(fields)
+	// a new outer type around types other cases (and gen_sametype) use as well
+	inner := reflect.StructOf([]reflect.StructField{{Name: fmt.Sprintf("I%d", idx), Type: reflect.TypeOf(""), Tag: `json:"i"`}})
+	w.typNested = reflect.StructOf([]reflect.StructField{
+		{Name: fmt.Sprintf("Fixed%d", idx), Type: reflect.TypeOf(c15Fixed{}), Tag: `json:"fixed"`},
+		{Name: "Inner", Type: reflect.SliceOf(inner), Tag: `json:"inner"`},
+		{Name: "Ptr", Type: reflect.PointerTo(reflect.TypeOf(c15Fixed{})), Tag: `json:"ptr"`}})
 	return w
+}
+
+func c15Val(f *c15Feature, v, idx int) string {
+	s := f.vals[v]
+	if strings.Contains(s, "%d") {
+		s = fmt.Sprintf(s, idx)
+	}
+	return s
+}
+
+// c15Kind classifies an error by TYPE (never by text); Error() is called as a server that logs it would.
+func c15Kind(err error) string {
+	_ = err.Error()
+	var me openapi3.MultiError
+	var se *openapi3.SchemaError
+	var pe *openapi3filter.ParseError
+	var sec *openapi3filter.SecurityRequirementsError
+	switch {
+	case errors.As(err, &sec):
+		return "reject:security"
+	case errors.As(err, &pe):
+		return "reject:parse"
+	case errors.As(err, &se):
+		return "reject:schema"
+	case errors.As(err, &me):
+		return "reject:multi"
+	}
+	return "reject:untyped"
+}
+
+// the file pair of load_cached (written once per process)
+var c15LoadOnce sync.Once
+var c15LoadRoot string
+
+func c15LoadFiles() string {
+	c15LoadOnce.Do(func() {
+		dir, err := os.MkdirTemp("", "c15load")
+		if err != nil {
+			panic(err)
+		}
+		os.WriteFile(filepath.Join(dir, "ext.json"), []byte(`{"components":{"schemas":{"X":{"type":"object","properties":{"a":{"type":"integer"}}}}}}`), 0o644)
+		c15LoadRoot = filepath.Join(dir, "root.json")
+		os.WriteFile(c15LoadRoot, []byte(`{"openapi":"3.0.3","info":{"title":"l","version":"1"},"paths":{"/x":{"get":{"responses":{"200":{"description":"ok",
+ "content":{"application/json":{"schema":{"$ref":"ext.json#/components/schemas/X"}}}}}}}}}`), 0o644)
+	})
+	return c15LoadRoot
+}
+
+// c15Product performs one call of the product operation <<entry, feature>> in variant v.
+func c15Product(w *c15World, entry, feature string, v int) string {
+	f := c15FeatureByName(feature)
+	valText := c15Val(f, v, w.idx)
+	var val any
+	if err := json.Unmarshal([]byte(valText), &val); err != nil {
+		panic(err)
+	}
+	// the wire form of a styled value: strings bare, arrays comma-joined
+	wire := func() string {
+		switch x := val.(type) {
+		case string:
+			return x
+		case []any:
+			parts := make([]string, len(x))
+			for i := range x {
+				parts[i] = fmt.Sprint(x[i])
+			}
+			return strings.Join(parts, ",")
+		}
+		return valText
+	}
+	schema := w.doc.Components.Schemas["F_"+feature].Value
+	verdict := func(err error) string {
+		if err == nil {
+			return "ok"
+		}
+		return c15Kind(err)
+	}
+	router := w.mux
+	if strings.HasSuffix(entry, "_legacy") {
+		router, entry = w.legacy, strings.TrimSuffix(entry, "_legacy")
+	}
+	route := func(req *http.Request) (*routers.Route, map[string]string) {
+		r, pp, err := router.FindRoute(req)
+		if err != nil {
+			panic("harness: c15 no route for " + req.Method + " " + req.URL.String())
+		}
+		return r, pp
+	}
+	switch entry {
+	case "visit":
+		return verdict(schema.VisitJSON(val))
+	case "visit_typed":
+		switch x := val.(type) {
+		case string:
+			return verdict(schema.VisitJSONString(x))
+		case float64:
+			return verdict(schema.VisitJSONNumber(x))
+		case []any:
+			return verdict(schema.VisitJSONArray(x))
+		case map[string]any:
+			return verdict(schema.VisitJSONObject(x))
+		}
+		panic("harness: c15 visit_typed value")
+	case "visit_opts":
+		return verdict(schema.VisitJSON(val, openapi3.MultiErrors(), openapi3.EnableFormatValidation(),
+			openapi3.SetSchemaErrorMessageCustomizer(func(*openapi3.SchemaError) string { return "custom" })))
+	case "param_query", "param_multi":
+		req := httptest.NewRequest("GET", "/f/"+feature+"?p="+url.QueryEscape(wire()), nil)
+		r, pp := route(req)
+		in := &openapi3filter.RequestValidationInput{Request: req, PathParams: pp, Route: r}
+		if entry == "param_multi" {
+			in.Options = &openapi3filter.Options{MultiError: true}
+		}
+		return verdict(openapi3filter.ValidateRequest(context.Background(), in))
+	case "param_header":
+		req := httptest.NewRequest("GET", "/h/"+feature, nil)
+		req.Header.Set("X-P", wire())
+		r, pp := route(req)
+		return verdict(openapi3filter.ValidateRequest(context.Background(), &openapi3filter.RequestValidationInput{Request: req, PathParams: pp, Route: r}))
+	case "req_body":
+		req := httptest.NewRequest("POST", "/f/"+feature, strings.NewReader(`{"p":`+valText+`}`))
+		req.Header.Set("Content-Type", "application/json")
+		r, pp := route(req)
+		return verdict(openapi3filter.ValidateRequest(context.Background(), &openapi3filter.RequestValidationInput{Request: req, PathParams: pp, Route: r}))
+	case "resp_body", "resp_header":
+		path, hdr, body := "/f/"+feature, http.Header{"Content-Type": []string{"application/json"}}, `{"p":`+valText+`}`
+		if entry == "resp_header" {
+			path, hdr, body = "/h/"+feature, http.Header{"X-P": []string{wire()}}, ""
+		}
+		req := httptest.NewRequest("GET", path, nil)
+		r, pp := route(req)
+		return verdict(openapi3filter.ValidateResponse(context.Background(), &openapi3filter.ResponseValidationInput{
+			RequestValidationInput: &openapi3filter.RequestValidationInput{Request: req, PathParams: pp, Route: r},
+			Status:                 200, Header: hdr, Body: io.NopCloser(strings.NewReader(body))}))
+	case "middleware":
+		req := httptest.NewRequest("POST", "/f/"+feature, strings.NewReader(`{"p":`+valText+`}`))
+		req.Header.Set("Content-Type", "application/json")
+		rec := httptest.NewRecorder()
+		w.mw.ServeHTTP(rec, req)
+		switch rec.Code {
+		case 200:
+			return "ok:" + rec.Body.String()
+		case 400:
+			return "reject:400"
+		}
+		return fmt.Sprintf("other:%d", rec.Code)
+	}
+	panic("harness: c15 entry " + entry)
+}
+
+// c15Media performs one body validation: side mt_req / mt_resp, feature "<declared>.<sent>".
+func c15Media(w *c15World, side, feature string, v, g int) string {
+	declared, sent, _ := strings.Cut(feature, ".")
+	mt := c15Sent(sent, w.idx, g)
+	if sent == "vendor_new" && declared != "exact" && g > 0 {
+		// behind a wildcard entry a client may vary the vendor type: every goroutine brings one nobody has seen
+		mt = strings.Replace(mt, "+json", fmt.Sprintf(".g%d+json", g), 1)
+	}
+	var body string
+	switch sent {
+	case "yaml":
+		body = []string{"p: 1\n", "p: x\n", "p: 2\nq: z\n"}[v]
+	case "plain", "octet":
+		body = []string{"ab", "a", "abc"}[v]
+	default:
+		body = []string{`{"p":1}`, `{"p":"x"}`, `{"p":2,"q":"z"}`}[v]
+	}
+	req := httptest.NewRequest("POST", "/mt/"+declared, strings.NewReader(body))
+	req.Header.Set("Content-Type", mt)
+	r, pp, err := w.mux.FindRoute(req)
+	if err != nil {
+		panic("harness: c15 no route for /mt/" + declared)
+	}
+	in := &openapi3filter.RequestValidationInput{Request: req, PathParams: pp, Route: r}
+	if side == "mt_req" {
+		err = openapi3filter.ValidateRequest(context.Background(), in)
+	} else {
+		req.Body = http.NoBody
+		err = openapi3filter.ValidateResponse(context.Background(), &openapi3filter.ResponseValidationInput{RequestValidationInput: in,
+			Status: 200, Header: http.Header{"Content-Type": []string{mt}}, Body: io.NopCloser(strings.NewReader(body))})
+	}
+	if err != nil {
+		return c15Kind(err)
+	}
+	return "ok"
 }
 
 type c15Fixed struct {
@@ -104,7 +464,14 @@ type c15Fixed struct {
 }
 
 // c15Call performs one call of op in variant v (0/1) and returns its verdict.
-func c15Call(w *c15World, op string, v int, idx int) string {
+func c15Call(w *c15World, o c15Op, v int, idx int, g int) string {
+	if o.F != "-" {
+		if o.E == "mt_req" || o.E == "mt_resp" {
+			return c15Media(w, o.E, o.F, v, g)
+		}
+		return c15Product(w, o.E, o.F, v)
+	}
+	op := o.E
 	mkReq := func(method, target, body string) *http.Request {
 		var r io.Reader
 		if body != "" {
@@ -142,6 +509,38 @@ func c15Call(w *c15World, op string, v int, idx int) string {
 		return find(w.mux)
 	case "find_legacy":
 		return find(w.legacy)
+	case "find_mux_servers", "find_legacy_servers":
+		// server templates with variables: matched per request by both routers
+		router := w.muxS
+		if op == "find_legacy_servers" {
+			router = w.legacyS
+		}
+		target := []string{"https://acme.example.com/v2/things/7", "https://api.example.com/base/things", "https://acme.example.com/v3/things/7"}[v]
+		route, pp, err := router.FindRoute(httptest.NewRequest("GET", target, nil))
+		if err != nil {
+			return "err"
+		}
+		return fmt.Sprintf("%s %s id=%s tenant=%s ver=%s", route.Method, route.Path, pp["id"], pp["tenant"], pp["ver"])
+	case "doc_marshal":
+		// the document served as JSON while it is used for validation
+		b, err := w.doc.MarshalJSON()
+		if err != nil {
+			return "err"
+		}
+		return fmt.Sprintf("json valid=%v", json.Valid(b))
+	case "load_cached":
+		// a Loader of its own with the default reader: the external file comes through the process-wide URI cache
+		l := openapi3.NewLoader()
+		l.IsExternalRefsAllowed = true
+		d, err := l.LoadFromFile(c15LoadFiles())
+		if err != nil {
+			return "reject"
+		}
+		if err := d.Validate(context.Background()); err != nil {
+			return "reject"
+		}
+		x := d.Paths.Value("/x").Get.Responses.Value("200").Value.Content["application/json"].Schema.Value
+		return fmt.Sprintf("ok:%d", len(x.Properties))
 	case "vreq_params":
 		return validateReq(w.mux, mkReq("GET", []string{"/items/5?q=1,2", "/items/5?q=x"}[v%2], ""))
 	case "vreq_params_delete":
@@ -239,12 +638,24 @@ func c15Call(w *c15World, op string, v int, idx int) string {
 			return "reject"
 		}
 		return "ok"
-	case "gen_newtype", "gen_sametype":
+	case "gen_newtype", "gen_sametype", "gen_nested", "gen_customizer":
 		var x any = &c15Fixed{}
-		if op == "gen_newtype" {
+		var opts []openapi3gen.Option
+		switch op {
+		case "gen_newtype":
 			x = reflect.New(w.typ).Interface()
+		case "gen_nested":
+			x = reflect.New(w.typNested).Interface()
+		case "gen_customizer":
+			opts = append(opts, openapi3gen.UseAllExportedFields(), openapi3gen.SchemaCustomizer(
+				func(name string, t reflect.Type, tag reflect.StructTag, schema *openapi3.Schema) error {
+					if name == "b" {
+						schema.Description = "customised"
+					}
+					return nil
+				}))
 		}
-		ref, err := openapi3gen.NewSchemaRefForValue(x, nil)
+		ref, err := openapi3gen.NewSchemaRefForValue(x, nil, opts...)
 		if err != nil {
 			return "err"
 		}
@@ -258,6 +669,86 @@ func c15Call(w *c15World, op string, v int, idx int) string {
 	panic("harness: c15 op " + op)
 }
 
+// c15Snapshot: what a caller can observe of the shared state without hooks (SharedState!Observable): the documents (by
+// the hash of their JSON form), which of the case's media types have a decoder / an encoder, the sizes of the format
+// tables, the error-details switch.  Taken while no goroutine runs.
+func c15Snapshot(ws ...*c15World) map[string]any {
+	docs := []any{}
+	types := []string{"application/json", "application/problem+json", "application/yaml", "text/plain", "application/octet-stream",
+		"application/x-www-form-urlencoded", "multipart/form-data", "text/csv", c15VendorReg, "application/vnd.verif.cN+json"}
+	dec, enc := []any{}, []any{}
+	for _, w := range ws {
+		for _, d := range []*openapi3.T{w.doc, w.docS} {
+			if d == nil {
+				continue
+			}
+			b, err := d.MarshalJSON()
+			if err != nil {
+				panic(err)
+			}
+			docs = append(docs, fmt.Sprintf("%x", sha256.Sum256(b))[:16])
+		}
+	}
+	for _, t := range types {
+		names := []string{t}
+		if strings.Contains(t, "cN+") {
+			names = names[:0]
+			for _, w := range ws {
+				names = append(names, c15VendorNew(w.idx))
+			}
+		}
+		for _, n := range names {
+			if openapi3filter.RegisteredBodyDecoder(n) != nil {
+				dec = append(dec, t)
+			}
+			if openapi3filter.RegisteredBodyEncoder(n) != nil {
+				enc = append(enc, t)
+			}
+		}
+	}
+	return map[string]any{"docs": docs, "decoders": dec, "encoders": enc,
+		"formats":     []any{len(openapi3.SchemaStringFormats), len(openapi3.SchemaNumberFormats), len(openapi3.SchemaIntegerFormats)},
+		"details_off": openapi3.SchemaErrorDetailsDisabled}
+}
+
+// c15Configure puts the process into the configuration `init` names (done by the only goroutine there is, before the
+// validations start, as the documentation of these switches asks).
+func c15Configure(init string) {
+	switch init {
+	case "default", "":
+	case "unique_nil":
+		openapi3.RegisterArrayUniqueItemsChecker(nil) // "reset": the library's own tests do this
+	case "unique_custom":
+		openapi3.RegisterArrayUniqueItemsChecker(func(items []any) bool {
+			seen := map[string]bool{}
+			for _, it := range items {
+				k := fmt.Sprintf("%T:%v", it, it)
+				if seen[k] {
+					return false
+				}
+				seen[k] = true
+			}
+			return true
+		})
+	case "details_off":
+		openapi3.SchemaErrorDetailsDisabled = true
+	default:
+		panic("harness: c15 init " + init)
+	}
+}
+
+// c15Restore returns the process to its default configuration (sequentially: the nil checker is replaced by the
+// library's own on the next array validation).
+func c15Restore(init string) {
+	switch init {
+	case "unique_nil", "unique_custom":
+		openapi3.RegisterArrayUniqueItemsChecker(nil)
+		openapi3.NewArraySchema().WithUniqueItems(true).VisitJSON([]any{})
+	case "details_off":
+		openapi3.SchemaErrorDetailsDisabled = false
+	}
+}
+
 func c15Run(c *Case) []any {
 	var tc c15Case
 	c.Decode(&tc)
@@ -265,21 +756,31 @@ func c15Run(c *Case) []any {
 	c.Decode(&raw)
 	line := map[string]any{"case": c.Idx, "c": raw}
 	goroutines, iters := 8, 100
-	if c.Tier == "thorough" {
-		iters = 300
-	}
+	// (thorough has ~20 times the cases of quick -- every pair of product operations, every flat triple -- at the same
+	// number of iterations per goroutine: measured 35 min at 200 iterations on a loaded machine, too long)
+	c15Configure(tc.Init)
+	defer c15Restore(tc.Init)
 	// alone: a world of its own (so that "first use" is still a first use in the concurrent run)
-	alone := c15NewWorld(c.Idx*2 + 1)
+	servers := false
+	for _, op := range tc.Ops {
+		servers = servers || strings.HasSuffix(op.E, "_servers")
+	}
+	alone := c15NewWorld(c.Idx*2+1, servers)
+	w := c15NewWorld(c.Idx*2, servers)
+	line["before"] = c15Snapshot(alone, w)
 	type run struct {
-		Op    string `json:"op"`
-		Alone []any  `json:"alone"`
+		Op    c15Op `json:"op"`
+		Alone []any `json:"alone"`
 		// Verdicts[v] = ok / reject / other for variant v run alone; conc entries are "v<k>=<result>"
 		Verdicts []any `json:"verdicts"`
 		Conc     []any `json:"conc"`
 	}
 	runs := make([]*run, len(tc.Ops))
 	norm := func(v string, idx int) string {
-		return strings.ReplaceAll(strings.ReplaceAll(v, fmt.Sprintf("c%dp", idx), "cNp"), fmt.Sprintf("C%dP", idx), "CNP")
+		for _, p := range [][2]string{{"c%dp", "cNp"}, {"C%dP", "CNP"}, {"c%dq", "cNq"}} {
+			v = strings.ReplaceAll(v, fmt.Sprintf(p[0], idx), p[1])
+		}
+		return v
 	}
 	class := func(v string) string {
 		switch {
@@ -293,13 +794,14 @@ func c15Run(c *Case) []any {
 	for i, op := range tc.Ops {
 		r := &run{Op: op}
 		for v := 0; v < 3; v++ {
-			a := c15Call(alone, op, v, c.Idx*2+1)
+			a := c15Call(alone, op, v, c.Idx*2+1, 0)
 			r.Alone = append(r.Alone, fmt.Sprintf("v%d=%s", v, norm(a, c.Idx*2+1)))
 			r.Verdicts = append(r.Verdicts, class(a))
 		}
 		runs[i] = r
 	}
-	w := c15NewWorld(c.Idx * 2)
+	// (the sequential calls above may have completed a lazy initialisation: the configuration is that of `init` again)
+	c15Configure(tc.Init)
 	var mu sync.Mutex
 	seen := make([]map[string]bool, len(tc.Ops))
 	for i := range seen {
@@ -311,7 +813,7 @@ func c15Run(c *Case) []any {
 	for i, op := range tc.Ops {
 		for g := 0; g < goroutines; g++ {
 			wg.Add(1)
-			go func(i int, op string, g int) {
+			go func(i int, op c15Op, g int) {
 				defer wg.Done()
 				defer func() {
 					if r := recover(); r != nil {
@@ -322,9 +824,13 @@ func c15Run(c *Case) []any {
 				}()
 				<-start
 				local := map[string]bool{}
-				for it := 0; it < iters; it++ {
+				n := iters
+				if op.E == "doc_marshal" || op.E == "load_cached" {
+					n = iters / 10 // (whole-document operations: two orders of magnitude more work per call)
+				}
+				for it := 0; it < n; it++ {
 					vi := (g + it) % 3
-					v := c15Call(w, op, vi, c.Idx*2)
+					v := c15Call(w, op, vi, c.Idx*2, g)
 					local[fmt.Sprintf("v%d=%s", vi, norm(v, c.Idx*2))] = true
 				}
 				mu.Lock()
@@ -337,6 +843,7 @@ func c15Run(c *Case) []any {
 	}
 	close(start)
 	wg.Wait()
+	line["after"] = c15Snapshot(alone, w)
 	out := []any{}
 	for i, r := range runs {
 		ks := make([]string, 0, len(seen[i]))
@@ -354,16 +861,42 @@ func c15Run(c *Case) []any {
 	}
 	line["runs"] = out
 	line["outcome"] = "done"
+	line["racefns"] = []any{}
 	if panicked {
 		line["outcome"] = "panic"
 	}
 	return []any{line}
 }
 
+// c15RaceFns projects the race detector's report (the dead child's stderr) to the library functions on top of the two
+// conflicting stacks: the first frame inside kin-openapi of each of the first two stacks, without package path.
+func c15RaceFns(report string) []any {
+	fns := []any{}
+	i := strings.Index(report, "WARNING: DATA RACE")
+	if i < 0 {
+		return fns
+	}
+	blocks := strings.Split(report[i:], "\n\n")
+	for _, b := range blocks {
+		if len(fns) == 2 || strings.HasPrefix(strings.TrimSpace(b), "Goroutine") {
+			break
+		}
+		for _, l := range strings.Split(b, "\n") {
+			l = strings.TrimSpace(l)
+			if k := strings.Index(l, "github.com/getkin/kin-openapi/"); k == 0 && strings.HasSuffix(l, "()") {
+				fns = append(fns, strings.TrimSuffix(strings.TrimPrefix(l, "github.com/getkin/kin-openapi/"), "()"))
+				break
+			}
+		}
+	}
+	return fns
+}
+
 func init() {
-	drivers["C15"] = &Driver{Run: c15Run, PerCaseTimeoutMs: 60000, Abnormal: func(c *Case, kind string) []any {
-		var raw map[string]any
-		c.Decode(&raw)
-		return []any{map[string]any{"case": c.Idx, "c": raw, "outcome": kind, "runs": []any{}}}
-	}}
+	drivers["C15"] = &Driver{Run: c15Run, PerCaseTimeoutMs: 300000, // (a run is 8-16 goroutines under -race: slow on a loaded machine is not a hang)
+		Abnormal: func(c *Case, kind string) []any {
+			var raw map[string]any
+			c.Decode(&raw)
+			return []any{map[string]any{"case": c.Idx, "c": raw, "outcome": kind, "runs": []any{}, "racefns": c15RaceFns(lastChildStderr)}}
+		}}
 }
